@@ -36,6 +36,10 @@ with `validate t = true`, and for EVERY such table (`C12`): `entries()` never pa
 set of at most `n` members and an answer of at most `first` phrases.  The old witnesses are kept:
 `validate` rejects each of them (`witnesses_rejected`), and what the traversals would do on them without the
 validation is still proved (`unvalidated_*`).  `validate (write b) = true` is C11's `validate_write`.
+Since the repair of C13's F47 `Syllable::try_from` rejects every value that is not a syllable code (`validCode`), and the
+`Syllable::try_from(syl).unwrap()` of `entries()` is modelled with it; `validate_index` checks the syllable of every node
+record, so `C12` holds as before for every accepted table (`valid_validSyls`; `unvalidated_entries_invalid_syllable` shows the
+check is needed), and a legacy record with such a value is an ordinary load error (`uhash_invalid_syllable_is_error`).
 The legacy-file findings F14/F15/F39 were repaired by `fix:` commits; the model is of the repaired
 code and `uhash_total` holds without hypothesis (`uhash_orig_panics` keeps the old witnesses).
 F40 — a stored frequency within reach of `u32::MAX` aborted the first commit that learned the phrase
@@ -221,6 +225,15 @@ theorem uhash_fixed_skips :
     loadUhash f14File = .ok (.ok []) ∧ loadUhash f15File = .ok (.ok []) ∧ loadUhash f39File = .ok (.ok []) := by
   exact ⟨by decide +kernel, by decide +kernel, by decide +kernel⟩
 
+/-- a stored syllable that is not a syllable (C13's F47 repaired: `Syllable::try_from` rejects `0x6a07`) is an ordinary
+    load error of both readers — the whole file is refused, nothing is imported, nothing panics; the same records with
+    a valid code are imported (the examples at the end of the file) -/
+theorem uhash_invalid_syllable_is_error :
+    loadBin (fileOf [1, 0x07, 0x6a, 1, 65]) = .ok (.error ()) ∧
+    loadUhash (fileOf [1, 0x07, 0x6a, 1, 65]) = .ok (.error ()) ∧
+    loadText [52, 50, 10, 80, 32, 50, 55, 49, 52, 51, 32, 49, 32, 50, 32, 51, 32, 52, 10] = .ok (.error ()) := by
+  exact ⟨by decide +kernel, by decide +kernel, by decide +kernel⟩
+
 /-! ## Trie lookup: total for every table; thread set bounded by `n` on every validated table -/
 
 /-- `lookup_no_panic` (and termination: the model is structurally recursive) -/
@@ -244,7 +257,7 @@ theorem lookup_answer_bounded {P : Type} (t : Tbl P) (pred : Nat → Nat → Boo
 
 /-- `entries_no_panic`: no panic on any validated table, whatever the fuel -/
 theorem entries_no_panic : EntriesNoPanic :=
-  fun _ _ fuel s hv => entriesFuel_no_panic (valid_noZeroChild hv) fuel s
+  fun _ _ fuel s hv => entriesFuel_no_panic (valid_noZeroChild hv) (valid_validSyls hv) fuel s
 
 /-- `entries_terminates`: at most `16·n + 2` iterations of the closure's loop.  The termination measure is
     `phi` of `Proofs/WalkEntries.lean` with twice the subtree size as the weight of a record
@@ -258,10 +271,16 @@ theorem entries_measure_decreases {P : Type} {t : Tbl P} (hv : validate t = true
     phi (subtreeWeights (valid_forward hv)) st' < phi (subtreeWeights (valid_forward hv)) st :=
   tick_phi _ (valid_noZeroChild hv) hi hnf h
 
-/-- what `validate_index` establishes (the negations of the former finding classes F16 / F17) -/
+/-- what `validate_index` establishes (the negations of the former finding classes F16 / F17, and — since the repair of
+    C13's F47 — that every syllable `entries()` will hand to `Syllable::try_from(..).unwrap()` is a valid code) -/
 theorem validate_sound {P : Type} {t : Tbl P} (hv : validate t = true) :
-    Forward t ∧ NoZeroChild t ∧ DisjointRanges t ∧ Mono t ∧ AllInside t :=
-  ⟨valid_forward hv, valid_noZeroChild hv, valid_disjoint hv, valid_mono hv, valid_allInside hv⟩
+    Forward t ∧ NoZeroChild t ∧ DisjointRanges t ∧ Mono t ∧ AllInside t ∧ ValidSyls t :=
+  ⟨valid_forward hv, valid_noZeroChild hv, valid_disjoint hv, valid_mono hv, valid_allInside hv, valid_validSyls hv⟩
+
+/-- the syllable field of every node record (every record but the root whose field is not zero) of an accepted table
+    is a value `Syllable::try_from` accepts -/
+theorem validate_node_syllables {P : Type} {t : Tbl P} (hv : validate t = true) (i : Nat) (h0 : 0 < i) (hi : i < t.n)
+    (hs : (t.get i).s ≠ 0) : validCode (t.get i).s = true := valid_syl hv h0 hi hs
 
 /-- **C12** -/
 theorem C12 : C12_full :=
@@ -301,7 +320,7 @@ theorem trie_file_total (bytes : Der.Bytes) :
   rcases open_then_valid bytes with h | ⟨t, h1, hv⟩
   · exact Or.inl h
   · refine Or.inr ⟨t, h1, ?_, fun pred q th hp h => threads_length_linear hv pred q th hp h,
-      fun fuel s => entriesFuel_no_panic (valid_noZeroChild hv) fuel s,
+      fun fuel s => entriesFuel_no_panic (valid_noZeroChild hv) (valid_validSyls hv) fuel s,
       entriesFuel_returns_linear hv _ (Nat.le_refl _)⟩
     intro pred first q
     obtain ⟨r, hr⟩ := lookup_returns (tblOf t) pred first q
@@ -315,10 +334,11 @@ theorem trie_file_total (bytes : Der.Bytes) :
 def blowupTbl : Tbl Nat :=
   { recs := [⟨0, 3, 0⟩, ⟨0, 3, 10268⟩, ⟨0, 3, 10268⟩], dataLen := 3, leaf := fun _ _ => [7] }
 
-/-- every former witness is rejected when the file is opened -/
+/-- every former witness is rejected when the file is opened — and so are the two tables whose only flaw is a node
+    syllable that is not a syllable (`0x6a07`, `0x8208`; they pass the structural scan: `invalidSyl_scan_ok`) -/
 theorem witnesses_rejected :
     validate loopTbl = false ∧ validate blowupTbl = false ∧ validate zeroSecondTbl = false ∧
-    validate zeroSiblingTbl = false := by decide
+    validate zeroSiblingTbl = false ∧ validate invalidSylTbl = false ∧ validate markerSylTbl = false := by decide
 
 /-- without the validation (the walk of the pre-fix code = the same walk on an unvalidated table):
     F16, the self-loop table never finishes … -/
@@ -331,9 +351,17 @@ theorem unvalidated_lookup_blowup :
 
 /-- … F17, both panic sites -/
 theorem unvalidated_entries_panic :
-    entriesFuel zeroSecondTbl 100 = .panic "trie:zero-syllable-unwrap" ∧
+    entriesFuel zeroSecondTbl 100 = .panic "trie:invalid-syllable-unwrap" ∧
     entriesFuel zeroSiblingTbl 100 = .panic "trie:debug-assert-zero-syllable" :=
   ⟨zeroSecond_panics, zeroSibling_panics⟩
+
+/-- … and a node syllable outside the range of `Syllable::try_from` (C13's F47 repaired in `try_from` only) reaches the
+    `unwrap()` of `entries()`: the syllable check of `validate_index` is necessary as well -/
+theorem unvalidated_entries_invalid_syllable :
+    entriesFuel invalidSylTbl 100 = .panic "trie:invalid-syllable-unwrap" ∧
+    entriesFuel markerSylTbl 100 = .panic "trie:invalid-syllable-unwrap" ∧
+    NoZeroChild invalidSylTbl ∧ Forward invalidSylTbl :=
+  ⟨invalidSyl_panics, markerSyl_panics, invalidSyl_noZeroChild, invalidSyl_forward⟩
 
 /-- so the validation is necessary: the statement without its hypothesis is false -/
 theorem validation_needed :
